@@ -89,72 +89,18 @@ def gwExpiredT (pc : PfCfg) (w : WireCfg) (tr : Treasure) (ops : List WireOp) (c
 def WireHolds (w : WireCfg) : Prop :=
   ∀ n : Int, w.codeOp n = w.docOp n ∧ w.codeCond n = w.docCond n
 
-/-- decidable form: the numbers -256 ‥ 511 (everything else repeats them) -/
+/-- the extracted tables are usable: every const / enum name was recognised (the extractor writes
+    `.unknown` for a name it does not know), nothing is empty or longer than a uint8 can index -/
+def WireCfg.clean (w : WireCfg) : Bool :=
+  !decide (OpKind.unknown ∈ w.opOrder) && !decide (OpKind.unknown ∈ w.protoOps) &&
+  !decide (CondOp.unknown ∈ w.condOrder) && !decide (CondOp.unknown ∈ w.protoConds) &&
+  decide (w.opOrder.length ≤ 256) && decide (w.protoOps.length ≤ 256) &&
+  decide (w.condOrder.length ≤ 256) && decide (w.protoConds.length ≤ 256) &&
+  !w.opOrder.isEmpty && !w.condOrder.isEmpty
+
+/-- decidable form of `WireHolds` on clean tables: TABLE EQUALITY and a range-checked conversion -/
 def WireCfg.agrees (w : WireCfg) : Bool :=
-  (List.range 768).all (fun i =>
-    let n : Int := (i : Int) - 256
-    w.codeOp n == w.docOp n && w.codeCond n == w.docCond n)
-
-def WireCfg.sized (w : WireCfg) : Bool :=
-  w.protoOps.length ≤ 256 && w.protoConds.length ≤ 256
-
-theorem WireCfg.not_holds_of_disagree {w : WireCfg} (h : w.agrees = false) : ¬ WireHolds w := by
-  intro hh
-  have : w.agrees = true := by
-    unfold WireCfg.agrees
-    rw [List.all_eq_true]
-    intro i _
-    have := hh ((i : Int) - 256)
-    simp [this.1, this.2]
-  rw [this] at h; cases h
-
-theorem index_fold (c : WireConv) (hc : c ≠ .unknown) (n : Int) (hn : n < -256 ∨ 512 ≤ n) :
-    ∃ k : Int, 256 ≤ k ∧ k < 512 ∧ c.index n = c.index k := by
-  cases c with
-  | unknown => exact absurd rfl hc
-  | cast =>
-    refine ⟨n % 256 + 256, by omega, by omega, ?_⟩
-    simp only [WireConv.index]
-    congr 2
-    omega
-  | castChecked =>
-    refine ⟨256, by omega, by omega, ?_⟩
-    simp only [WireConv.index]
-    rw [if_neg (by omega), if_neg (by omega)]
-
-theorem WireCfg.holds_of_agrees {w : WireCfg} (hc : w.conv ≠ .unknown) (hs : w.sized = true)
-    (h : w.agrees = true) : WireHolds w := by
-  unfold WireCfg.agrees at h
-  rw [List.all_eq_true] at h
-  simp only [WireCfg.sized, Bool.and_eq_true, decide_eq_true_eq] at hs
-  have inRange : ∀ n : Int, -256 ≤ n → n < 512 → w.codeOp n = w.docOp n ∧ w.codeCond n = w.docCond n := by
-    intro n h1 h2
-    have := h (n + 256).toNat (by simp [List.mem_range]; omega)
-    have e : (((n + 256).toNat : Nat) : Int) - 256 = n := by omega
-    simp only [e, Bool.and_eq_true, beq_iff_eq] at this
-    exact this
-  intro n
-  by_cases hr : -256 ≤ n ∧ n < 512
-  · exact inRange n hr.1 hr.2
-  · obtain ⟨k, hk1, hk2, hk⟩ := index_fold w.conv hc n (by omega)
-    have hkk := inRange k (by omega) hk2
-    have dk : w.docOp k = .unknown ∧ w.docCond k = .unknown := by
-      unfold WireCfg.docOp WireCfg.docCond
-      rw [if_neg (by omega), if_neg (by omega)]
-      constructor
-      · rw [List.getElem?_eq_none (by omega)]; rfl
-      · rw [List.getElem?_eq_none (by omega)]; rfl
-    have dn : w.docOp n = .unknown ∧ w.docCond n = .unknown := by
-      unfold WireCfg.docOp WireCfg.docCond
-      by_cases hneg : n < 0
-      · rw [if_pos hneg, if_pos hneg]; exact ⟨rfl, rfl⟩
-      · rw [if_neg hneg, if_neg hneg]
-        constructor
-        · rw [List.getElem?_eq_none (by omega)]; rfl
-        · rw [List.getElem?_eq_none (by omega)]; rfl
-    constructor
-    · rw [dn.1, ← dk.1, ← hkk.1]; unfold WireCfg.codeOp; rw [hk]
-    · rw [dn.2, ← dk.2, ← hkk.2]; unfold WireCfg.codeCond; rw [hk]
+  w.opOrder == w.protoOps && w.condOrder == w.protoConds && w.conv == .castChecked
 
 /-- `wire_cond_agrees`: when the Go const block of `CondOp` is the proto enum's table and the
     conversion keeps numbers outside 0‥255 out, every wire number reaches the engine as the operator
@@ -182,6 +128,81 @@ theorem wire_op_agrees {w : WireCfg} (htab : w.opOrder = w.protoOps) (hconv : w.
     by_cases hneg : n < 0
     · rw [if_pos hneg]
     · rw [if_neg hneg, List.getElem?_eq_none (by omega)]; rfl
+
+theorem WireCfg.holds_of_agrees {w : WireCfg} (hcl : w.clean = true) (h : w.agrees = true) : WireHolds w := by
+  simp only [WireCfg.agrees, Bool.and_eq_true, beq_iff_eq] at h
+  simp only [WireCfg.clean, Bool.and_eq_true, decide_eq_true_eq] at hcl
+  intro n
+  exact ⟨wire_op_agrees h.1.1 h.2 (by omega) n, wire_cond_agrees h.1.2 h.2 (by omega) n⟩
+
+/-- two lists without the default element that differ, differ at an index (read with the default) -/
+theorem lists_differ {α : Type} (u : α) : ∀ (l1 l2 : List α), l1 ≠ l2 → u ∉ l1 → u ∉ l2 →
+    ∃ i, i < max l1.length l2.length ∧ (l1[i]?).getD u ≠ (l2[i]?).getD u
+  | [], [], h, _, _ => absurd rfl h
+  | [], b :: l2, _, _, h2 => ⟨0, by simp, by
+      simp only [List.getElem?_nil, Option.getD_none, List.getElem?_cons_zero, Option.getD_some]
+      intro e; exact h2 (by rw [e]; exact List.mem_cons_self)⟩
+  | a :: l1, [], _, h1, _ => ⟨0, by simp, by
+      simp only [List.getElem?_nil, Option.getD_none, List.getElem?_cons_zero, Option.getD_some]
+      intro e; exact h1 (by rw [← e]; exact List.mem_cons_self)⟩
+  | a :: l1, b :: l2, h, h1, h2 => by
+    by_cases hab : a = b
+    · subst hab
+      have hne : l1 ≠ l2 := fun e => h (by rw [e])
+      obtain ⟨i, hi, hd⟩ := lists_differ u l1 l2 hne (fun m => h1 (List.mem_cons_of_mem _ m))
+        (fun m => h2 (List.mem_cons_of_mem _ m))
+      refine ⟨i + 1, by simp only [List.length_cons]; omega, ?_⟩
+      simpa using hd
+    · exact ⟨0, by simp, by simpa using hab⟩
+
+theorem WireCfg.not_holds_of_disagree {w : WireCfg} (hc : w.conv ≠ .unknown) (hcl : w.clean = true)
+    (h : w.agrees = false) : ¬ WireHolds w := by
+  intro hh
+  simp only [WireCfg.clean, Bool.and_eq_true, decide_eq_true_eq, Bool.not_eq_true', decide_eq_false_iff_not] at hcl
+  obtain ⟨⟨⟨⟨⟨⟨⟨⟨⟨u1, u2⟩, u3⟩, u4⟩, l1⟩, l2⟩, l3⟩, l4⟩, e1⟩, _⟩ := hcl
+  cases hcv : w.conv with
+  | unknown => exact hc hcv
+  | cast =>
+    -- number 256 is no operator, the cast reads the first const
+    have hcode : w.codeOp 256 = (w.opOrder[0]?).getD .unknown := by
+      unfold WireCfg.codeOp; rw [hcv]; rfl
+    have hdoc : w.docOp 256 = .unknown := by
+      unfold WireCfg.docOp
+      rw [if_neg (by omega)]
+      have : (256 : Int).toNat = 256 := by decide
+      rw [this, List.getElem?_eq_none (by omega)]; rfl
+    have h256 := (hh 256).1
+    rw [hcode, hdoc] at h256
+    cases hl : w.opOrder with
+    | nil => rw [hl] at e1; simp at e1
+    | cons a r =>
+      rw [hl] at h256
+      simp only [List.getElem?_cons_zero, Option.getD_some] at h256
+      exact u1 (by rw [hl, h256]; exact List.mem_cons_self)
+  | castChecked =>
+    have hne : w.opOrder ≠ w.protoOps ∨ w.condOrder ≠ w.protoConds := by
+      by_cases ho : w.opOrder = w.protoOps
+      · by_cases hcd : w.condOrder = w.protoConds
+        · simp [WireCfg.agrees, ho, hcd, hcv] at h
+        · exact Or.inr hcd
+      · exact Or.inl ho
+    rcases hne with ho | hcd
+    · obtain ⟨i, hi, hd⟩ := lists_differ OpKind.unknown _ _ ho u1 u2
+      have := (hh (i : Int)).1
+      unfold WireCfg.codeOp WireCfg.docOp WireConv.index at this
+      rw [hcv] at this
+      simp only at this
+      rw [if_pos (by omega), if_neg (by omega)] at this
+      simp only [Int.toNat_natCast] at this
+      exact hd this
+    · obtain ⟨i, hi, hd⟩ := lists_differ CondOp.unknown _ _ hcd u3 u4
+      have := (hh (i : Int)).2
+      unfold WireCfg.codeCond WireCfg.docCond WireConv.index at this
+      rw [hcv] at this
+      simp only at this
+      rw [if_pos (by omega), if_neg (by omega)] at this
+      simp only [Int.toNat_natCast] at this
+      exact hd this
 
 /-- the two RPCs do to the treasure what `PatchFields` does with the operators the request MEANS -/
 theorem gw_refines {w : WireCfg} (h : WireHolds w) (pc : PfCfg) (tr : Treasure) (ops : List WireOp)
